@@ -47,7 +47,6 @@ Qed.
 
 Section WithHash.
 Variable H : bytes -> bytes.
-Hypothesis H_len : forall x, length (H x) = MP_HASH_SIZE.
 
 Notation hash_leaf := (hash_leaf H).
 Notation hash_children := (hash_children H).
@@ -56,8 +55,6 @@ Notation z := zero_hash.
 
 Definition len32 (b : bytes) : Prop := length b = MP_HASH_SIZE.
 
-Lemma hash_children_len a b : len32 (hash_children a b). Proof. apply H_len. Qed.
-Lemma hash_leaf_len v : len32 (hash_leaf v). Proof. apply H_len. Qed.
 
 (** * next_level *)
 Lemma next_level_bounds l :
@@ -69,12 +66,6 @@ Lemma next_level_length l :
   Z.of_nat (length (next_level l)) = next_level_len (Z.of_nat (length l)).
 Proof. unfold next_level_len. induction l using pair_ind; cbn [MerklePath.next_level length] in *; lia. Qed.
 
-Lemma next_level_len32 l : Forall len32 l -> Forall len32 (next_level l).
-Proof.
-  induction l using pair_ind; intro F; simpl; auto.
-  inversion F as [|? ? _ F1]; inversion F1 as [|? ? _ F2]; subst.
-  constructor; [apply hash_children_len|auto].
-Qed.
 
 Lemma next_level_app a b : (length a mod 2 = 0)%nat -> next_level (a ++ b) = next_level a ++ next_level b.
 Proof.
@@ -111,8 +102,6 @@ Proof. induction a; intros b l; simpl; [reflexivity|apply IHa]. Qed.
 Lemma up_single d x : up d [x] = [x].
 Proof. induction d; simpl; auto. Qed.
 
-Lemma up_len32 d : forall l, Forall len32 l -> Forall len32 (up d l).
-Proof. induction d; intros l F; simpl; [exact F|apply IHd, next_level_len32, F]. Qed.
 
 Lemma up_length_one d : forall l, (1 <= length l <= 2 ^ d)%nat -> length (up d l) = 1%nat.
 Proof.
@@ -231,6 +220,22 @@ Proof.
   assert (1 <= length hs)%nat by (destruct hs; simpl; [congruence|lia]).
   split; [assumption|apply depth_int_spec; assumption].
 Qed.
+
+(** From here on the digest length of [H] matters. *)
+Hypothesis H_len : forall x, length (H x) = MP_HASH_SIZE.
+
+Lemma hash_children_len a b : len32 (hash_children a b). Proof. apply H_len. Qed.
+Lemma hash_leaf_len v : len32 (hash_leaf v). Proof. apply H_len. Qed.
+
+Lemma next_level_len32 l : Forall len32 l -> Forall len32 (next_level l).
+Proof.
+  induction l using pair_ind; intro F; simpl; auto.
+  inversion F as [|? ? _ F1]; inversion F1 as [|? ? _ F2]; subst.
+  constructor; [apply hash_children_len|auto].
+Qed.
+
+Lemma up_len32 d : forall l, Forall len32 l -> Forall len32 (up d l).
+Proof. induction d; intros l F; simpl; [exact F|apply IHd, next_level_len32, F]. Qed.
 
 Lemma rfc_root_len f : forall l, Forall len32 l -> len32 (rfc_root_fuel H f l).
 Proof.
@@ -456,3 +461,390 @@ Proof.
   replace (length wv + length (encode steps))%nat with (length (wv ++ encode steps)) by (rewrite app_length; reflexivity).
   rewrite nb_end. reflexivity.
 Qed.
+
+(** * getIndex *)
+Lemma get_index_some leaf : forall hs i, get_index leaf hs = Some i -> (i < length hs)%nat /\ nth i hs z = leaf.
+Proof.
+  induction hs as [|v r IH]; intros i E; simpl in E; [discriminate|].
+  destruct (bytes_eqb v leaf) eqn:B.
+  - injection E as <-. apply bytes_eqb_eq in B. simpl. split; [lia|exact B].
+  - destruct (get_index leaf r) as [j|] eqn:G; [|discriminate]. injection E as <-.
+    destruct (IH j eq_refl) as [A C]. simpl. split; [lia|exact C].
+Qed.
+
+Lemma get_index_in leaf : forall hs, In leaf hs -> exists i, get_index leaf hs = Some i.
+Proof.
+  induction hs as [|v r IH]; intro I; [destruct I|]. simpl.
+  destruct (bytes_eqb v leaf) eqn:B; [eexists; reflexivity|].
+  destruct I as [->|I]; [rewrite (proj2 (bytes_eqb_eq leaf leaf) eq_refl) in B; discriminate|].
+  destruct (IH I) as [i ->]. eexists; reflexivity.
+Qed.
+
+Lemma get_index_none leaf : forall hs, get_index leaf hs = None -> ~ In leaf hs.
+Proof. intros hs E I. destruct (get_index_in leaf hs I) as [i E']. congruence. Qed.
+
+(** * Completeness *)
+Lemma log2_up_le_15 n : (N.of_nat n <= 32768)%N -> (depth_int n <= 15)%nat.
+Proof.
+  intro Hn. unfold depth_int.
+  assert (N.log2_up (N.of_nat n) <= N.log2_up 32768)%N by (apply N.log2_up_le_mono; exact Hn).
+  change (N.log2_up 32768) with 15%N in *. lia.
+Qed.
+
+(** What a successful MerkleLeafPath returns, for any depth [d] with [length hs <= 2^d]. *)
+Lemma leaf_path_gen_shape depthf data hs p :
+  (forall d, depthf (length hs) = Some d -> (length hs <= 2 ^ d)%nat) ->
+  merkle_leaf_path_gen H depthf data hs = inr p ->
+  exists d index,
+    depthf (length hs) = Some d /\ (index < length hs)%nat /\ nth index hs z = hash_leaf data /\
+    (leaf_path_size (Z.of_nat (length hs)) (Z.of_nat (length data)) (Z.of_nat UINT256_SIZE) <= MP_MAX_SIZE)%Z /\
+    p = write_varbytes data ++ encode (steps_up d hs index).
+Proof.
+  intros Hd E. unfold merkle_leaf_path_gen in E.
+  destruct (MP_MAX_SIZE <? _)%Z eqn:Sz; [discriminate|]. apply Z.ltb_ge in Sz.
+  destruct (get_index (hash_leaf data) hs) as [index|] eqn:G; [|discriminate].
+  destruct (get_index_some _ _ _ G) as [Hi Hn].
+  destruct (depthf (length hs)) as [d|] eqn:D; [|discriminate].
+  rewrite (path_loop_steps hs d d index) in E by (rewrite ?Nat.sub_diag; simpl; lia).
+  rewrite Nat.sub_diag in E. simpl up in E. injection E as <-.
+  exists d, index. repeat split; auto.
+Qed.
+
+Theorem path_complete_gen depthf data hs p :
+  (forall d, depthf (length hs) = Some d -> (length hs <= 2 ^ d)%nat /\ (d < 32)%nat) ->
+  Forall len32 hs ->
+  merkle_leaf_path_gen H depthf data hs = inr p ->
+  forall t d, depthf (length hs) = Some d -> (d + length t < 32)%nat ->
+  merkle_prove H (p ++ t) (level_root H hs d) = inr data.
+Proof.
+  intros Hd F E t d Dd Ht.
+  destruct (leaf_path_gen_shape depthf data hs p (fun d D => proj1 (Hd d D)) E)
+    as [d' [index [D [Hi [Hn [Sz ->]]]]]].
+  rewrite Dd in D. injection D as <-.
+  destruct (Hd d Dd) as [Hl Hd32].
+  assert (Ok : steps_ok (steps_up d hs index)) by (apply steps_up_ok; assumption).
+  pose proof (steps_up_length d hs index) as Ls.
+  rewrite <- app_assoc.
+  rewrite prove_eval; [| exact Ok | lia |].
+  - rewrite <- Hn. rewrite climb_steps by lia. rewrite level_root_up.
+    rewrite (proj2 (bytes_eqb_eq _ _) eq_refl). reflexivity.
+  - rewrite !app_length, encode_length by exact Ok. unfold write_varbytes. rewrite app_length, write_varuint_length.
+    unfold leaf_path_size, MP_MAX_SIZE in Sz.
+    destruct (getVarUintSize_cases (N.of_nat (length data))) as [[_ G]|[[_ G]|[[_ G]|[_ G]]]]; rewrite G;
+      unfold two64; lia.
+Qed.
+
+(** The size check of MerkleLeafPath bounds the depth well below 32. *)
+Lemma size_bounds_depth (data : bytes) (hs : list bytes) :
+  (leaf_path_size (Z.of_nat (length hs)) (Z.of_nat (length data)) (Z.of_nat UINT256_SIZE) <= MP_MAX_SIZE)%Z ->
+  (N.of_nat (length hs) <= 32768)%N.
+Proof. unfold leaf_path_size, MP_MAX_SIZE. replace UINT256_SIZE with 32%nat by reflexivity. lia. Qed.
+
+Theorem path_complete data hs p (t : bytes) :
+  Forall len32 hs -> merkle_leaf_path H data hs = inr p -> (length t <= 16)%nat ->
+  merkle_prove H (p ++ t) (path_root H hs) = inr data.
+Proof.
+  intros F E Ht. unfold merkle_leaf_path in E.
+  assert (Sz : (leaf_path_size (Z.of_nat (length hs)) (Z.of_nat (length data)) (Z.of_nat UINT256_SIZE) <= MP_MAX_SIZE)%Z).
+  { unfold merkle_leaf_path_gen in E. destruct (MP_MAX_SIZE <? _)%Z eqn:S; [discriminate|]. apply Z.ltb_ge in S. exact S. }
+  assert (Hne : (1 <= length hs)%nat).
+  { unfold merkle_leaf_path_gen in E. destruct (MP_MAX_SIZE <? _)%Z; [discriminate|].
+    destruct hs; [discriminate|simpl; lia]. }
+  pose proof (log2_up_le_15 _ (size_bounds_depth data hs Sz)) as D15.
+  unfold path_root.
+  apply (path_complete_gen (fun n => Some (depth_int n)) data hs p); auto; try lia.
+  intros d [= <-]. split; [apply depth_int_spec; exact Hne|lia].
+Qed.
+
+(** A member of the list within the size bound always gets a path (no error, no panic). *)
+Theorem path_generated data hs :
+  In (hash_leaf data) hs ->
+  (leaf_path_size (Z.of_nat (length hs)) (Z.of_nat (length data)) (Z.of_nat UINT256_SIZE) <= MP_MAX_SIZE)%Z ->
+  exists p, merkle_leaf_path H data hs = inr p.
+Proof.
+  intros I Sz. unfold merkle_leaf_path, merkle_leaf_path_gen.
+  apply Z.ltb_ge in Sz. rewrite Sz.
+  destruct (get_index_in _ _ I) as [index G]. rewrite G.
+  destruct (get_index_some _ _ _ G) as [Hi _].
+  rewrite (path_loop_steps hs _ _ index) by (rewrite ?Nat.sub_diag; simpl; lia).
+  eexists; reflexivity.
+Qed.
+
+(** MerkleLeafPath reports exactly: too large, not a member, or a path. It never panics. *)
+Theorem leaf_path_no_panic data hs : merkle_leaf_path H data hs <> inl EPanic.
+Proof.
+  unfold merkle_leaf_path, merkle_leaf_path_gen.
+  destruct (MP_MAX_SIZE <? _)%Z; [discriminate|].
+  destruct (get_index (hash_leaf data) hs) as [index|] eqn:G; [|discriminate].
+  destruct (get_index_some _ _ _ G) as [Hi _].
+  rewrite (path_loop_steps hs _ _ index) by (rewrite ?Nat.sub_diag; simpl; lia). discriminate.
+Qed.
+
+Theorem leaf_path_not_found data hs : merkle_leaf_path H data hs = inl ENotFound -> ~ In (hash_leaf data) hs.
+Proof.
+  unfold merkle_leaf_path, merkle_leaf_path_gen.
+  destruct (MP_MAX_SIZE <? _)%Z; [discriminate|].
+  destruct (get_index (hash_leaf data) hs) as [index|] eqn:G.
+  - destruct (get_index_some _ _ _ G) as [Hi _].
+    rewrite (path_loop_steps hs _ _ index) by (rewrite ?Nat.sub_diag; simpl; lia). discriminate.
+  - intros _. apply get_index_none, G.
+Qed.
+
+(** * Soundness *)
+(** What an accepted proof yields, as data (constructive: the collision pair is computed from the
+    path and the list, no classical reasoning, no assumption that [H] is collision free):
+      - the leaf hash of the value is in the list, or
+      - two different byte strings with the same hash (this includes the leaf/inner confusion
+        pair [0x00 :: v] vs [0x01 :: l ++ r]), or
+      - an element of the list is itself the inner-node hash of two 32-byte strings (impossible
+        without a collision when the list holds leaf hashes: see [prove_sound_leaves]). *)
+Inductive witness (hs : list bytes) (v : bytes) : Type :=
+| W_member : In (hash_leaf v) hs -> witness hs v
+| W_collision : forall x y : bytes, x <> y -> H x = H y -> witness hs v
+| W_node_as_leaf : forall h a b, In h hs -> len32 a -> len32 b -> h = hash_children a b -> witness hs v.
+
+Lemma witness_incl l1 l2 v : incl l1 l2 -> witness l1 v -> witness l2 v.
+Proof.
+  intros I [M|x y N E|h a b M La Lb E].
+  - apply W_member, I, M.
+  - exact (W_collision _ _ x y N E).
+  - exact (W_node_as_leaf _ _ h a b (I _ M) La Lb E).
+Qed.
+
+Definition climbR (h : bytes) (rsteps : list step) : bytes :=
+  fold_right (fun s acc => apply_step acc s) h rsteps.
+
+Lemma climb_rev h steps : climb h steps = climbR h (rev steps).
+Proof. unfold climb, climbR. rewrite fold_left_rev_right. reflexivity. Qed.
+
+Lemma climbR_len v rsteps : len32 (climbR (hash_leaf v) rsteps).
+Proof.
+  destruct rsteps as [|s r]; simpl; [apply hash_leaf_len|].
+  unfold apply_step. destruct (_ =? _)%N; apply H_len.
+Qed.
+
+Lemma split_width_bounds n : (2 <= n)%nat ->
+  (1 <= N.to_nat (split_width (N.of_nat n)) < n)%nat.
+Proof.
+  intro Hn. destruct (split_width_nat n Hn) as [j [E [A B]]]. rewrite E.
+  assert (1 <= 2 ^ j)%nat by (apply Nat.neq_0_lt_0, Nat.pow_nonzero; lia). lia.
+Qed.
+
+Lemma node_preimage_neq a b c d : a ++ b <> c ++ d -> MP_NODE_PREFIX :: a ++ b <> MP_NODE_PREFIX :: c ++ d.
+Proof. intros N E. injection E as E. exact (N E). Qed.
+
+Lemma leaf_node_preimage_neq v a b : MP_LEAF_PREFIX :: v <> MP_NODE_PREFIX :: a ++ b.
+Proof. intro E. injection E as E _. exact (prefixes_differ E). Qed.
+
+Lemma sound_core v f : forall l rsteps,
+  (length l <= f)%nat -> (1 <= length l)%nat -> Forall len32 l -> steps_ok rsteps ->
+  climbR (hash_leaf v) rsteps = rfc_root_fuel H f l -> witness l v.
+Proof.
+  induction f; intros l rsteps Hf Hl F Ok E; [exfalso; lia|].
+  destruct (le_lt_dec (length l) 1) as [L1|L2].
+  - destruct l as [|x [|? ?]]; simpl in Hl, L1; try (exfalso; lia).
+    cbn [rfc_root_fuel] in E.
+    destruct rsteps as [|[fl sib] r].
+    + apply W_member. left. symmetry. exact E.
+    + cbn [climbR fold_right] in E. fold (climbR (hash_leaf v) r) in E.
+      pose proof (Forall_inv Ok) as Hs. pose proof (Forall_inv_tail Ok) as Ok'. cbn [snd] in Hs.
+      pose proof (climbR_len v r) as Lc.
+      unfold apply_step in E; cbn [fst snd] in E. destruct (fl =? MP_LEFT)%N.
+      * exact (W_node_as_leaf [x] v x sib _ (in_eq x []) Hs Lc (eq_sym E)).
+      * exact (W_node_as_leaf [x] v x _ sib (in_eq x []) Lc Hs (eq_sym E)).
+  - rewrite rfc_unfold in E by lia. cbv zeta in E.
+    pose proof (split_width_bounds (length l) ltac:(lia)) as Kb.
+    set (k := N.to_nat (split_width (N.of_nat (length l)))) in *.
+    set (a := firstn k l) in *. set (b := skipn k l) in *.
+    assert (La : length a = k) by (unfold a; rewrite firstn_length; lia).
+    assert (Lb : length b = (length l - k)%nat) by (unfold b; apply skipn_length).
+    assert (Fa : Forall len32 a) by (apply Forall_forall; intros x I; apply (proj1 (Forall_forall _ _) F); unfold a in I; apply (firstn_In _ _ _ I) || (rewrite <- (firstn_skipn k l); apply in_or_app; left; exact I)).
+    assert (Fb : Forall len32 b) by (apply Forall_forall; intros x I; apply (proj1 (Forall_forall _ _) F); rewrite <- (firstn_skipn k l); apply in_or_app; right; exact I).
+    assert (Ia : incl a l) by (intros x I; rewrite <- (firstn_skipn k l); apply in_or_app; left; exact I).
+    assert (Ib : incl b l) by (intros x I; rewrite <- (firstn_skipn k l); apply in_or_app; right; exact I).
+    pose proof (rfc_root_len f a Fa) as Lra. pose proof (rfc_root_len f b Fb) as Lrb.
+    set (ra := rfc_root_fuel H f a) in *. set (rb := rfc_root_fuel H f b) in *.
+    destruct rsteps as [|[fl sib] r].
+    + (* the leaf hash of the value equals an inner node: leaf/inner confusion pair *)
+      cbn [climbR fold_right] in E.
+      exact (W_collision _ _ _ _ (leaf_node_preimage_neq v ra rb) E).
+    + cbn [climbR fold_right] in E. fold (climbR (hash_leaf v) r) in E.
+      pose proof (Forall_inv Ok) as Hs. pose proof (Forall_inv_tail Ok) as Ok'. cbn [snd] in Hs.
+      pose proof (climbR_len v r) as Lc.
+      set (cur := climbR (hash_leaf v) r) in *.
+      unfold apply_step in E; cbn [fst snd] in E. destruct (fl =? MP_LEFT)%N.
+      * destruct (list_eq_dec N.eq_dec (sib ++ cur) (ra ++ rb)) as [Q|Q].
+        -- destruct (app_eq_len sib ra cur rb ltac:(unfold len32 in *; congruence) Q) as [_ Q2].
+           apply (witness_incl b l v Ib). apply (IHf b r); try assumption; try lia.
+        -- exact (W_collision _ _ _ _ (node_preimage_neq _ _ _ _ Q) E).
+      * destruct (list_eq_dec N.eq_dec (cur ++ sib) (ra ++ rb)) as [Q|Q].
+        -- destruct (app_eq_len cur ra sib rb ltac:(unfold len32 in *; congruence) Q) as [Q1 _].
+           apply (witness_incl a l v Ia). apply (IHf a r); try assumption; try lia.
+        -- exact (W_collision _ _ _ _ (node_preimage_neq _ _ _ _ Q) E).
+Qed.
+
+Lemma next_hash_len s v s' : next_hash s = (v, false, s') -> len32 v.
+Proof.
+  unfold next_hash, next_fixed, next_bytes. replace UINT256_SIZE with 32%nat by reflexivity.
+  destruct ((two64 <=? N.of_nat (off s) + N.of_nat 32)%N || (N.of_nat (length (buf s)) <? N.of_nat (off s) + N.of_nat 32)%N) eqn:C.
+  - discriminate.
+  - intro E. injection E as <- _. apply orb_false_iff in C. destruct C as [_ C]. apply N.ltb_ge in C.
+    unfold len32. rewrite slice_length; [reflexivity|]. lia.
+Qed.
+
+Lemma prove_loop_sound n : forall s h r, prove_loop H n s h = inr r ->
+  {steps | r = climb h steps /\ steps_ok steps}.
+Proof.
+  induction n; intros s h r E.
+  - injection E as <-. exists []. split; [reflexivity|constructor].
+  - cbn [prove_loop] in E.
+    destruct (next_byte s) as [[f e] s1]. destruct e; [discriminate|].
+    destruct (next_hash s1) as [[v e2] s2] eqn:NH. destruct e2; [discriminate|].
+    destruct (IHn _ _ _ E) as [steps [-> Ok]].
+    exists ((f, v) :: steps). split; [reflexivity|].
+    constructor; [exact (next_hash_len _ _ _ NH)|exact Ok].
+Qed.
+
+(** Every accepted path is a value followed by a chain of well-formed steps that climbs from the
+    value's leaf hash to the root. *)
+Lemma prove_accepts p root v : merkle_prove H p root = inr v ->
+  {steps | climb (hash_leaf v) steps = root /\ steps_ok steps}.
+Proof.
+  unfold merkle_prove. destruct (next_varbytes (src_new p)) as [[[[value sz] irr] eof] s1].
+  destruct (eof || irr); [discriminate|].
+  destruct (prove_loop H _ s1 (hash_leaf value)) as [e|h] eqn:PL; [discriminate|].
+  destruct (bytes_eqb h root) eqn:B; [|discriminate]. intro E. injection E as <-.
+  apply bytes_eqb_eq in B. destruct (prove_loop_sound _ _ _ _ PL) as [steps [-> Ok]].
+  exists steps. split; assumption.
+Qed.
+
+Theorem prove_sound_rfc hs p v :
+  hs <> [] -> Forall len32 hs -> merkle_prove H p (rfc_root H hs) = inr v -> witness hs v.
+Proof.
+  intros Hne F E. destruct (prove_accepts _ _ _ E) as [steps [C Ok]].
+  rewrite climb_rev in C.
+  apply (sound_core v (length hs) hs (rev steps)); auto.
+  - destruct hs; simpl; [congruence|lia].
+  - apply Forall_rev, Ok.
+Qed.
+
+Theorem prove_sound hs p v :
+  hs <> [] -> Forall len32 hs -> merkle_prove H p (path_root H hs) = inr v -> witness hs v.
+Proof. intros Hne F E. rewrite pairwise_eq_rfc in E by exact Hne. exact (prove_sound_rfc hs p v Hne F E). Qed.
+
+(** When the list holds leaf hashes (what PushCrossState appends), the third alternative is a
+    collision as well. *)
+Definition collision : Type := {xy : bytes * bytes | fst xy <> snd xy /\ H (fst xy) = H (snd xy)}.
+
+Lemma in_map_sig (f : bytes -> bytes) h : forall xs, In h (map f xs) -> {x | f x = h}.
+Proof.
+  induction xs as [|x xs IH]; intro I; [destruct I|].
+  destruct (list_eq_dec N.eq_dec (f x) h) as [E|N]; [exists x; exact E|].
+  apply IH. destruct I as [I|I]; [contradiction|exact I].
+Qed.
+
+Theorem prove_sound_leaves xs p v :
+  xs <> [] -> merkle_prove H p (path_root H (map hash_leaf xs)) = inr v ->
+  (In (hash_leaf v) (map hash_leaf xs)) + collision.
+Proof.
+  intros Hne E.
+  assert (F : Forall len32 (map hash_leaf xs)).
+  { apply Forall_forall. intros h I. apply in_map_iff in I. destruct I as [x [<- _]]. apply hash_leaf_len. }
+  assert (Hne' : map hash_leaf xs <> []) by (destruct xs; simpl; congruence).
+  destruct (prove_sound _ p v Hne' F E) as [M|x y N Q|h a b M La Lb Q].
+  - left. exact M.
+  - right. exists (x, y). split; assumption.
+  - right. destruct (in_map_sig hash_leaf h xs M) as [x Ex].
+    exists (MP_LEAF_PREFIX :: x, MP_NODE_PREFIX :: a ++ b). split.
+    + apply leaf_node_preimage_neq.
+    + cbn [fst snd]. unfold MerklePath.hash_leaf, MerklePath.hash_children in *. congruence.
+Qed.
+
+Theorem prove_sound_leaves_rfc xs p v :
+  xs <> [] -> merkle_prove H p (rfc_root H (map hash_leaf xs)) = inr v ->
+  (In (hash_leaf v) (map hash_leaf xs)) + collision.
+Proof.
+  intros Hne E. apply (prove_sound_leaves xs p v Hne).
+  rewrite pairwise_eq_rfc by (destruct xs; simpl; congruence). exact E.
+Qed.
+
+(** Without the leaf-hash premise the third alternative is real: a one-element list whose element
+    is an inner-node hash lets a path prove a value whose leaf hash is not that element. *)
+Lemma node_as_leaf_accepts v sib : len32 sib -> (N.of_nat (length v) < 4294967296)%N ->
+  merkle_prove H (write_varbytes v ++ MP_RIGHT :: sib)
+               (path_root H [hash_children (hash_leaf v) sib]) = inr v.
+Proof.
+  intros Ls Lv.
+  pose proof (prove_eval v [(MP_RIGHT, sib)] [] (path_root H [hash_children (hash_leaf v) sib])) as P.
+  cbn [encode flat_map fst snd app] in P. rewrite !app_nil_r in P. rewrite P.
+  - unfold climb, apply_step; cbn [fold_left fst snd]. rewrite left_right_differ.
+    change (path_root H [hash_children (hash_leaf v) sib]) with (hash_children (hash_leaf v) sib).
+    rewrite (proj2 (bytes_eqb_eq _ _) eq_refl). reflexivity.
+  - constructor; [exact Ls|constructor].
+  - simpl. lia.
+  - rewrite app_length. cbn [length]. unfold write_varbytes. rewrite app_length, write_varuint_length.
+    unfold len32 in Ls. rewrite Ls. replace MP_HASH_SIZE with 32%nat by reflexivity.
+    destruct (getVarUintSize_cases (N.of_nat (length v))) as [[_ G]|[[_ G]|[[_ G]|[_ G]]]]; rewrite G;
+      unfold two64; lia.
+Qed.
+
+Lemma next_varuint_eof_zero s c sz i s' : next_varuint s = (c, sz, i, true, s') -> c = 0%N.
+Proof.
+  unfold next_varuint. destruct (next_byte s) as [[fb e] sx]. destruct e.
+  - intro Q; inversion Q; reflexivity.
+  - unfold next_uint16, next_uint32, next_uint64, next_uint.
+    destruct (fb =? 253)%N; [destruct (next_bytes sx _) as [[? []] ?]; intro Q; inversion Q; reflexivity|].
+    destruct (fb =? 254)%N; [destruct (next_bytes sx _) as [[? []] ?]; intro Q; inversion Q; reflexivity|].
+    destruct (fb =? 255)%N; [destruct (next_bytes sx _) as [[? []] ?]; intro Q; inversion Q; reflexivity|].
+    intro Q; inversion Q.
+Qed.
+
+(** * The value prefix
+    MerkleProve rejects a non-minimal length prefix ([irregular]) and a truncated value ([eof]), so
+    an accepted path starts with exactly the canonical encoding [WriteVarBytes(value)]: the bytes
+    of a path determine the proved value and one value has one prefix. *)
+Theorem prove_value_prefix p root v :
+  wf_bytes p = true -> (N.of_nat (length p) < two64)%N ->
+  merkle_prove H p root = inr v -> exists rest, p = write_varbytes v ++ rest.
+Proof.
+  intros Wf Hb. unfold merkle_prove.
+  destruct (next_varbytes (src_new p)) as [[[[value sz] irr] eof] s2] eqn:NV.
+  destruct (eof || irr) eqn:EI; [discriminate|]. apply orb_false_iff in EI. destruct EI as [-> ->].
+  intro E. assert (value = v).
+  { destruct (prove_loop H _ s2 _); [discriminate|]. destruct (bytes_eqb _ _); [|discriminate]. congruence. }
+  subst value. clear E.
+  pose proof (src_new_ok p Hb) as Ok0.
+  unfold next_varbytes in NV.
+  pose proof (next_varuint_safe (src_new p) Ok0) as Safe.
+  destruct (next_varuint (src_new p)) as [[[[count size] irr0] eof0] s1] eqn:NU. cbn [snd] in Safe.
+  destruct Safe as [Eb [Ho1 Ho2]]. cbn [src_new buf off] in Eb, Ho1, Ho2.
+  assert (Ok1 : src_ok s1) by (split; rewrite Eb; [exact Ho2|exact Hb]).
+  assert (Canon : eof0 = false -> irr0 = false ->
+          firstn (off s1) p = write_varuint count).
+  { intros -> ->. pose proof (varuint_canonical _ _ _ _ _ Ok0 Wf NU) as [_ [_ C]].
+    cbn [src_new buf off] in C. unfold slice in C. rewrite Nat.sub_0_r in C. simpl skipn in C.
+    apply C. reflexivity. }
+  destruct (0 <? count)%N eqn:Cnt.
+  - pose proof (next_bytes_spec s1 count Ok1) as NB.
+    destruct (next_bytes s1 count) as [[d eof'] s2'] eqn:NBe.
+    injection NV as -> _ -> -> ->.
+    destruct NB as [Eb2 [[Ho3 Ho4] [Ed [Hoff _]]]]. rewrite Eb in *.
+    specialize (Hoff eq_refl).
+    assert (eof0 = false).
+    { destruct eof0; [|reflexivity]. rewrite (next_varuint_eof_zero _ _ _ _ _ NU) in Cnt. discriminate. }
+    specialize (Canon H0 eq_refl).
+    exists (skipn (off s2) p).
+    assert (Ld : N.of_nat (length v) = count).
+    { rewrite Ed. rewrite slice_length by lia. lia. }
+    unfold write_varbytes. rewrite Ld, <- Canon, Ed. unfold slice.
+    rewrite <- app_assoc.
+    rewrite <- (firstn_skipn (off s1) p) at 1. f_equal.
+    rewrite <- (firstn_skipn (off s2 - off s1) (skipn (off s1) p)) at 1. f_equal.
+    rewrite skipn_add. f_equal. lia.
+  - injection NV as <- _ -> -> ->.
+    specialize (Canon eq_refl eq_refl). apply N.ltb_ge in Cnt. assert (count = 0%N) by lia. subst count.
+    exists (skipn (off s2) p). unfold write_varbytes. cbn [length N.of_nat]. rewrite app_nil_r, <- Canon.
+    symmetry. apply firstn_skipn.
+Qed.
+
+End WithHash.
